@@ -185,16 +185,49 @@ func TestC04(t *testing.T) {
 	}))
 }
 
+// pfOverrun: small plans whose actions overrun the (minimum, 5 s) timeout; several plans run at once so that the
+// timeouts elapse in parallel ("batched", DESIGN §5 C05). Submit's 5 s floor is not bypassed.
+var pfOverrun = withProfile(lab.ProfileDefault, func(p *lab.Profile) {
+	p.Name = "overrun"
+	p.MaxPlans, p.MaxBlocks, p.MaxSeqs, p.MaxActs, p.MaxCheckActs = 3, 1, 3, 2, 1
+	p.PGroup, p.PBypass, p.PContFail, p.PGate, p.PPoll, p.PWriteLat, p.PDelay = 20, 0, 0, 0, 0, 0, 0
+	p.PRetry, p.MaxRetries, p.PFailSeqAct, p.PFailCheckAct, p.POverrun = 40, 1, 30, 20, 60
+	p.ContDelays = []int{2}
+})
+
 func TestC05(t *testing.T) {
-	vprop.Run(t, engineSpec("C05", []lab.Profile{pfAttempts}, lab.RunOpts{}, func(rr *lab.RunResult, res *vprop.Result) {
+	spec := engineSpec("C05", []lab.Profile{pfAttempts}, lab.RunOpts{}, func(rr *lab.RunResult, res *vprop.Result) {
 		sc := rr.Sc
 		sc.EachAction(func(r lab.Ref, a *lab.ActionSpec) {
 			if len(a.Script) >= 2 || (len(a.Script) == 1 && a.Script[0].Out != lab.OK) {
 				res.NonTrivial = true
 			}
 		})
+		if sc.HasOverrun() {
+			res.Label("overrun-batch")
+		}
 		lab.CheckC05(rr, res)
-	}))
+	})
+	// one case in 256 (8 fair coins) is an overrun batch: each costs 5-15 s of wall time
+	plain := spec.Gen
+	spec.Gen = func(t *rapid.T) lab.Scenario {
+		batch := true
+		for i := 0; i < 8; i++ {
+			if !rapid.Bool().Draw(t, "overrunBatch") {
+				batch = false
+			}
+		}
+		if batch {
+			sc := pfOverrun.Gen(t)
+			if !sc.HasOverrun() { // construction, not rejection: every batch has at least one overrunning attempt
+				sc.Plans[0].Blocks[0].Seqs[0].Actions[0].Script[0].Out = lab.Overrun
+			}
+			sc.Timeout5s = true
+			return sc
+		}
+		return plain(t)
+	}
+	vprop.Run(t, spec)
 }
 
 func TestC06(t *testing.T) {
